@@ -8,9 +8,9 @@ def inClosure (w : World) (id : Id) : Prop :=
   (w.heap id).boxLive = true ∧ (w.heap id).valLive = false ∧ (w.heap id).rc = 0 ∧
   (w.metas id).weak = 1 ∧ (w.metas id).accessible = true
 
-/-- Entering the closure establishes that state. -/
-theorem closure_entry (c : Cfg) (w : World) (k : Nat) (id : Id) (sp : NewSpec) (body : Nat) (selfw : Option Nat) :
-    inClosure (stepFrame c w (.newCyclicAlloc k id sp body selfw)) id := by
+/-- Entering the closure establishes that state (the new object gets the next identity). -/
+theorem closure_entry (c : Cfg) (w : World) (k : Nat) (sp : NewSpec) (body : Nat) (selfw : Option Nat) :
+    inClosure (stepFrame c w (.newCyclicAlloc k sp body selfw)) w.next := by
   simp only [stepFrame, inClosure]
   split <;> simp [raiseLogged, raise, emit, push, updMeta, Metas.set, newObj, Heap.set] <;> (try split) <;> simp [Metas.set]
 
@@ -19,15 +19,15 @@ for as long as no strong pointer exists, i.e. until `new_cyclic` returns. -/
 theorem closure_weak_dead (w : World) (id : Id) (h : (w.heap id).rc = 0) : w.weakStrong (.to id) = 0 := by
   unfold weakStrong; simp [h]
 
-/-- After `new_cyclic` returns normally: the value is initialised and the strong count is 1. -/
-theorem after_return (c : Cfg) (w : World) (k : Nat) (id : Id) (sp : NewSpec) :
+/-- After `new_cyclic` returns normally: the value is initialised and the strong count went from 0 to 1. -/
+theorem after_return (c : Cfg) (w : World) (k : Nat) (id : Id) (sp : NewSpec) (h0 : (w.heap id).rc = 0) :
     ((stepFrame c w (.newCyclicEnd k id sp none)).heap id).rc = 1 ∧
     ((stepFrame c w (.newCyclicEnd k id sp none)).heap id).valLive = true := by
   have hwd : ∀ w' : World, (w'.weakDrop (.to id)).heap = w'.heap := by
     intro w'; unfold weakDrop; simp only; split <;> rfl
   simp only [stepFrame, Bool.false_and, if_false, Bool.false_eq_true]
   unfold putH
-  split <;> simp [setH, push, hwd, upd]
+  split <;> simp [setH, push, hwd, upd, h0]
 
 /-- If the closure (or anything it calls) panics, the guard releases the box without running any
 destructor and makes the side record not accessible: every saved clone of the `Weak` stays dead. -/
